@@ -61,6 +61,8 @@ func init() {
 				}
 				newSrvWorld(e, cfg).run()
 			}},
+			{Name: "sweep-tables", Bubble: true, Run: c09Sweep, SweepN: c09SweepN, QuickSweep: true, Exhaustive: true,
+				SweepNote: "7 target messages (base command, application-specific command, request and answer, application ids that fall back to the base dictionary incl. the relay id and ids with a parent application) x every subset of the 7 registrations that could compete for the message (own index, other R bit, neighbouring application, neighbouring code, short name with the right suffix, with the wrong suffix, another short name) x catch-all absent / by name / by index: 2 688 cases"},
 		},
 		MustProbes: []string{"re-registration", "unhandled-message"},
 	})
@@ -137,5 +139,34 @@ func c16Sweep(e *Env) {
 	h.rc = c16SweepRC[k]
 	e.NonTrivial()
 	cfg := srvCfg{prop: "C16", nConns: 1, msgsPer: [2]int{1, 1}, answerPct: 100, wideHdr: true, hdr: h}
+	newSrvWorld(e, cfg).run()
+}
+
+// c09Targets are the messages of the C09 sweep: (application, code, request?).
+var c09Targets = []struct {
+	app, code uint32
+	req       bool
+}{
+	{0, 900, true},          // base command, request
+	{0, 901, false},         // base command, answer
+	{1001, 900, true},       // the application's own command with a code the base application also has
+	{1002, 910, false},      // application-specific command, answer
+	{1001, 901, true},       // application falls back to the base dictionary
+	{0xffffffff, 900, true}, // relay application id falls back to the base dictionary
+	{16777251, 901, false},  // an application id that has a "parent" falls back to the base dictionary
+}
+
+func c09SweepN(thorough bool) int { return len(c09Targets) * 128 * 3 }
+
+func c09Sweep(e *Env) {
+	k := e.Case
+	if k < 0 {
+		k = e.T.Draw(c09SweepN(false)) // (run outside the sweep: a drawn case)
+	}
+	tg := c09Targets[k%len(c09Targets)]
+	k /= len(c09Targets)
+	f := &tableForce{app: tg.app, code: tg.code, req: tg.req, mask: k % 128, all: k / 128}
+	e.NonTrivial()
+	cfg := srvCfg{prop: "C09", nConns: 1, msgsPer: [2]int{1, 2}, parkPct: 20, answerPct: 20, table: true, tableForce: f}
 	newSrvWorld(e, cfg).run()
 }
